@@ -4,7 +4,7 @@
 From Coq Require Import List NArith Bool Arith Sorted.
 From Coq Require Import Strings.Byte.
 Require Import BS.Bytes BS.Common BS.Api BS.Layout BS.Format BS.FormatFacts BS.Spec BS.SpecStep.
-Require Import BS.FS BS.FSFacts BS.Meta BS.MetaFacts BS.Header BS.Reader BS.ReaderFacts BS.Index BS.Data BS.DataFacts BS.Seek BS.Series BS.SeriesFacts BS.ReadAllFacts BS.TotalFacts BS.ExtractFacts BS.HeaderFacts BS.OpenFacts.
+Require Import BS.FS BS.FSFacts BS.Meta BS.MetaFacts BS.Header BS.Reader BS.ReaderFacts BS.Index BS.Data BS.DataFacts BS.Seek BS.Series BS.SeriesFacts BS.ReadAllFacts BS.TotalFacts BS.ExtractFacts BS.HeaderFacts BS.LastMetaFacts BS.OpenFacts BS.Sections.
 Import ListNotations.
 
 
@@ -20,8 +20,10 @@ Import ListNotations.
      (b) tail_clean: the tail check of FileWithInlineMeta::new sees no pair of marker slots in the last K slots. Proved
          for payload sizes >= 4 (C04_tail_clean_p4). For payload sizes 0..3 it fails exactly for the known finding D6
          (0xFFFF words in the continuation slots of the last section), see C04_open_intact_refuted;
-     (c) the backwards search for the last full timestamp succeeds: proved when the data region fits the search
-         window (C04_last_meta_short, >= 10 000 bytes). *)
+     (c) the backwards search for the last full timestamp succeeds: proved for every length (C04_last_meta) when no
+         continuation slot of a section header looks like a marker line (nm_sec; vacuous for payload sizes >= 4), and
+         without that condition for data regions within the search window (C04_last_meta_short).
+   For payload sizes >= 4 nothing is left: C04_reopen_p4. *)
 Theorem C04_reopen : forall p fs s header uhdr name popt hdropt cb l,
   RepH fs s p (outer header) (outer []) l ->
   of_name (d_file (s_data s)) = name ++ ext_data -> of_name (ix_file (d_index (s_data s))) = name ++ ext_index ->
@@ -60,6 +62,43 @@ Theorem C04_reopen_own : forall p fs s uhdr name popt hdropt cb l,
     /\ of_name (d_file (s_data s')) = name ++ ext_data /\ of_name (ix_file (d_index (s_data s'))) = name ++ ext_index.
 Proof. exact reopen_own. Qed.
 Print Assumptions C04_reopen_own.
+
+(* FULL STATEMENT for payload sizes of 4 bytes and more: any list of lines, any length, any timestamps, any user header:
+   close / reopen is the identity on the abstract state and on every file *)
+Theorem C04_reopen_p4 : forall p fs s uhdr name popt hdropt cb l, 4 <= p ->
+  let header := params_to_text BSgen.Consts.version (N.of_nat p) ++ uhdr in
+  RepH fs s p (outer header) (outer []) l ->
+  of_name (d_file (s_data s)) = name ++ ext_data -> of_name (ix_file (d_index (s_data s))) = name ++ ext_index ->
+  (len header <= 65535)%N -> (len (encode p l) < 2^64)%N -> (N.of_nat p < 2^64)%N ->
+  (popt = None \/ popt = Some (N.of_nat p)) ->
+  match hdropt with HdrIs e => e = uhdr | HdrAny => True end ->
+  exists s', builder_open name popt hdropt [] cb fs = (fs, Ok (s', uhdr))
+    /\ RepH fs s' p (outer header) (outer []) l /\ s_cb s' = cb
+    /\ of_name (d_file (s_data s')) = name ++ ext_data /\ of_name (ix_file (d_index (s_data s'))) = name ++ ext_index.
+Proof. exact reopen_p4. Qed.
+Print Assumptions C04_reopen_p4.
+
+(* payload sizes 0..3: the same under the two conditions on 0xFFFF words in section headers *)
+Theorem C04_reopen_small_payload : forall p fs s uhdr name popt hdropt cb l,
+  let header := params_to_text BSgen.Consts.version (N.of_nat p) ++ uhdr in
+  RepH fs s p (outer header) (outer []) l ->
+  of_name (d_file (s_data s)) = name ++ ext_data -> of_name (ix_file (d_index (s_data s))) = name ++ ext_index ->
+  (len header <= 65535)%N -> (len (encode p l) < 2^64)%N -> (N.of_nat p < 2^64)%N ->
+  (popt = None \/ popt = Some (N.of_nat p)) ->
+  (l = [] \/ tail_clean p (encode p l)) ->
+  Forall (nm_sec p) (secs_of l) ->
+  match hdropt with HdrIs e => e = uhdr | HdrAny => True end ->
+  exists s', builder_open name popt hdropt [] cb fs = (fs, Ok (s', uhdr))
+    /\ RepH fs s' p (outer header) (outer []) l /\ s_cb s' = cb
+    /\ of_name (d_file (s_data s')) = name ++ ext_data /\ of_name (ix_file (d_index (s_data s'))) = name ++ ext_index.
+Proof. exact reopen_nm. Qed.
+Print Assumptions C04_reopen_small_payload.
+
+(* the backwards window search finds the last full timestamp, whatever the length of the file *)
+Theorem C04_last_meta : forall p l, wf_series p l -> Forall (nm_sec p) (secs_of l) ->
+  last_meta_timestamp p (encode p l) = Ok (full_after p None l).
+Proof. exact last_meta_ok. Qed.
+Print Assumptions C04_last_meta.
 
 (* the data-file half alone: Data::open_existing on a cleanly written pair of files *)
 Theorem C04_data_open : forall p fs name header cb l,
